@@ -90,6 +90,14 @@ func runHistory(s kvs.Storage, cfg config, base time.Time) ([]hist.Rec, map[stri
 				val := fmt.Sprintf("%d-%d", c.id, c.n)
 				c.n++
 				same := c.rng.Intn(5) == 0 && c.lastVal[key] != "" // write exactly the bytes this client saw last
+				// inmem only: now and then the record written carries an expiry that has already passed - it is
+				// logically absent at once but physically there until somebody touches it (lazy purge paths)
+				var expAt *time.Time
+				gone := cfg.Backend == "inmem" && c.rng.Intn(7) == 0
+				if gone {
+					t := time.Now().Add(-time.Millisecond)
+					expAt = &t
+				}
 				// the Version field of written records is "ignored" by contract: supply hostile ones
 				sup := ""
 				switch c.rng.Intn(3) {
@@ -143,7 +151,7 @@ func runHistory(s kvs.Storage, cfg config, base time.Time) ([]hist.Rec, map[stri
 						supMu.Unlock()
 					}
 					call := now()
-					ver, err := s.Create(ctx, kvs.Record{Key: key, Value: []byte(val), Version: sup})
+					ver, err := s.Create(ctx, kvs.Record{Key: key, Value: []byte(val), Version: sup, ExpiresAt: expAt})
 					ret := now()
 					e := hist.Classify(err)
 					out := hist.Out{Err: e}
@@ -158,7 +166,7 @@ func runHistory(s kvs.Storage, cfg config, base time.Time) ([]hist.Rec, map[stri
 					} else if e == hist.EOther {
 						out.Msg = err.Error()
 					}
-					c.recs = append(c.recs, hist.Rec{Client: c.id, In: hist.In{Kind: hist.KCreate, Key: key, Val: val}, Out: out, Call: call, Ret: ret})
+					c.recs = append(c.recs, hist.Rec{Client: c.id, In: hist.In{Kind: hist.KCreate, Key: key, Val: val, Gone: gone}, Out: out, Call: call, Ret: ret})
 				case op < 34:
 					call := now()
 					r, err := s.Get(ctx, key)
@@ -184,7 +192,7 @@ func runHistory(s kvs.Storage, cfg config, base time.Time) ([]hist.Rec, map[stri
 						val = c.lastVal[key]
 					}
 					call := now()
-					r, err := s.Put(ctx, kvs.Record{Key: key, Value: []byte(val), Version: sup})
+					r, err := s.Put(ctx, kvs.Record{Key: key, Value: []byte(val), Version: sup, ExpiresAt: expAt})
 					ret := now()
 					e := hist.Classify(err)
 					out := hist.Out{Err: e, Ver: r.Version}
@@ -195,7 +203,7 @@ func runHistory(s kvs.Storage, cfg config, base time.Time) ([]hist.Rec, map[stri
 					} else {
 						out.Msg = err.Error()
 					}
-					c.recs = append(c.recs, hist.Rec{Client: c.id, In: hist.In{Kind: hist.KPut, Key: key, Val: val}, Out: out, Call: call, Ret: ret})
+					c.recs = append(c.recs, hist.Rec{Client: c.id, In: hist.In{Kind: hist.KPut, Key: key, Val: val, Gone: gone}, Out: out, Call: call, Ret: ret})
 				case op < 72:
 					exp := c.lastVer[key]
 					switch c.rng.Intn(5) {
@@ -210,7 +218,7 @@ func runHistory(s kvs.Storage, cfg config, base time.Time) ([]hist.Rec, map[stri
 						val = c.lastVal[key] // a CAS that re-writes the bytes it has read: still a write, still a new version
 					}
 					call := now()
-					r, err := s.CasByVersion(ctx, kvs.Record{Key: key, Value: []byte(val), Version: exp})
+					r, err := s.CasByVersion(ctx, kvs.Record{Key: key, Value: []byte(val), Version: exp, ExpiresAt: expAt})
 					ret := now()
 					e := hist.Classify(err)
 					out := hist.Out{Err: e}
@@ -222,7 +230,7 @@ func runHistory(s kvs.Storage, cfg config, base time.Time) ([]hist.Rec, map[stri
 					} else if e == hist.EOther {
 						out.Msg = err.Error()
 					}
-					c.recs = append(c.recs, hist.Rec{Client: c.id, In: hist.In{Kind: hist.KCas, Key: key, Val: val, Exp: exp}, Out: out, Call: call, Ret: ret})
+					c.recs = append(c.recs, hist.Rec{Client: c.id, In: hist.In{Kind: hist.KCas, Key: key, Val: val, Exp: exp, Gone: gone}, Out: out, Call: call, Ret: ret})
 				case op < 82:
 					call := now()
 					err := s.Delete(ctx, key)
@@ -286,7 +294,7 @@ func runHistory(s kvs.Storage, cfg config, base time.Time) ([]hist.Rec, map[stri
 							supplied[sv] = true
 							supMu.Unlock()
 						}
-						recs[i] = kvs.Record{Key: k, Value: []byte(vals[i]), Version: sv}
+						recs[i] = kvs.Record{Key: k, Value: []byte(vals[i]), Version: sv, ExpiresAt: expAt}
 					}
 					call := now()
 					err := s.PutMany(ctx, recs)
@@ -297,7 +305,7 @@ func runHistory(s kvs.Storage, cfg config, base time.Time) ([]hist.Rec, map[stri
 						if e != hist.ENil {
 							out.Msg = err.Error()
 						}
-						c.recs = append(c.recs, hist.Rec{Client: c.id, In: hist.In{Kind: hist.KPutSym, Key: k, Val: vals[i]}, Out: out, Call: call, Ret: ret})
+						c.recs = append(c.recs, hist.Rec{Client: c.id, In: hist.In{Kind: hist.KPutSym, Key: k, Val: vals[i], Gone: gone}, Out: out, Call: call, Ret: ret})
 					}
 				}
 			}
@@ -428,7 +436,7 @@ func firstNonRace(recs []hist.Rec, cfg config) int64 { return 1 << 62 }
 func TestCheck(t *testing.T) {
 	run := report.New("C02", "exploration")
 	defer run.Finish(t)
-	run.Rule("concurrent histories of T in 2..8 clients x K in 4..12 operations over 1..3 keys (mix of Create/Get/Put/CasByVersion/Delete/GetMany/PutMany with unique values and occasional re-writes of identical bytes, hostile Version fields and stale / made-up CAS versions; flavours: mixed, racing creators, racing CAS on one version) recorded at the client boundary and checked (1) by porcupine against the per-key sequential model, (2) for outcomes outside the documented set, (3) for injectivity of version -> write. distinct = distinct outcome words (client, operation, key, outcome in call order) among histories in which operations of different clients on one key really overlapped in time")
+	run.Rule("concurrent histories of T in 2..8 clients x K in 4..12 operations over 1..3 keys (mix of Create/Get/Put/CasByVersion/Delete/GetMany/PutMany with unique values and occasional re-writes of identical bytes, inmem: writes of records whose expiry has already passed (logically absent, physically awaiting the lazy purge), hostile Version fields and stale / made-up CAS versions; flavours: mixed, racing creators, racing CAS on one version) recorded at the client boundary and checked (1) by porcupine against the per-key sequential model, (2) for outcomes outside the documented set, (3) for injectivity of version -> write. distinct = distinct outcome words (client, operation, key, outcome in call order) among histories in which operations of different clients on one key really overlapped in time")
 	run.Assume("Redis backend runs against the in-process miniredis server with random per-command delays injected by its pre-hook")
 	run.Assume("the version reported together with ErrExist is not judged here (C03)")
 
